@@ -381,6 +381,9 @@ func Fill(r *rand.Rand, t *T, v reflect.Value, o ValOpts) {
 				n = 0
 			case 2:
 				n = 1 + r.IntN(4*maxn)
+				if r.IntN(4) == 0 {
+					n = 17 + r.IntN(90) // arenas grow several times within one record
+				}
 			default:
 				n = 1 + r.IntN(maxn)
 			}
